@@ -44,36 +44,43 @@ def windows(b, w=8):
     return {b[i:i + w] for i in range(0, max(1, len(b) - w + 1))} if len(b) >= w else set()
 
 
-def encodings(secret: bytes):
-    """Search needles for one secret: raw 8-byte windows, hex (both cases) 16-char windows, base64 10-char windows of
-    the three alignments."""
-    needles = set(windows(secret, 8))
+def encodings(secret: bytes, w=8):
+    """Search needles for one secret: raw w-byte windows, hex (both cases) 2w-char windows, base64 windows of
+    the three alignments. w is 8 except for secrets made of decimal digits only: object names are hex strings, in
+    which an 8-digit run occurs by chance often enough to matter over many runs (a false alarm met once)."""
+    needles = set(windows(secret, w))
     hx = secret.hex().encode()
-    needles |= windows(hx, 16) | windows(hx.upper(), 16)
+    needles |= windows(hx, 2 * w) | windows(hx.upper(), 2 * w)
+    bw = (4 * w) // 3
     for phase in range(3):
         enc = base64.standard_b64encode(secret[phase:])
         core = enc.rstrip(b'=')[:-2] if len(enc) > 4 else b''
-        needles |= windows(core, 10)
+        needles |= windows(core, bw)
     return needles
 
 
 class Taint:
     def __init__(self):
         self.needles = {}   # needle -> label
+        self.sizes = set()
 
     def add(self, label, secret):
         if isinstance(secret, str):
             secret = secret.encode('utf-8', 'surrogateescape')
         if len(secret) < 8:
             return
-        for nd in encodings(secret):
+        w = 14 if secret.isdigit() else 8
+        if len(secret) < w:
+            return
+        for nd in encodings(secret, w):
             self.needles.setdefault(nd, label)
+            self.sizes.add(len(nd))
 
     def scan(self, blob):
         if isinstance(blob, str):
             blob = blob.encode('utf-8', 'surrogateescape')
         hits = []
-        for w in (8, 10, 16):
+        for w in sorted(self.sizes):
             for i in range(0, len(blob) - w + 1):
                 lab = self.needles.get(blob[i:i + w])
                 if lab is not None:
